@@ -15,7 +15,9 @@ EXTRA = {"C08-4": ["C18"], "C01-4": ["C05"], "C20-4": ["C03"], "C15-4": ["C08"],
          "C02-7": ["C06"], "C11-7": ["C18"], "C03-8": ["C08"], "C08-7": ["C03", "C05"], "C08-8": ["C16"], "C07-7": ["C06"], "C07-8": ["C05"],
          "C15-7": ["C03"], "C15-8": ["C13"], "C01-7": ["C09", "C14"],
          # fifth round
-         "C14-9": ["C13"], "C08-10": ["C16"], "C03-10": ["C08"], "C16-10": ["C08"], "C02-10": ["C03", "C04"], "C02-9": ["C01"]}
+         "C14-9": ["C13"], "C08-10": ["C16"], "C03-10": ["C08"], "C16-10": ["C08"], "C02-10": ["C03", "C04"], "C02-9": ["C01"],
+         # sixth round
+         "C15-9": ["C06"], "C06-9": ["C15"], "C11-9": ["C18"]}
 
 def main():
     a = sys.argv[1:]
